@@ -100,7 +100,7 @@ func (fc *FnCtx) callFunc(fr *Frame, st *State, reach string, callee *ssa.Functi
 		fc.assumption("T3 environment contract: " + name)
 		return h(fc, fr, st, reach, args, call)
 	}
-	if con := fc.eng.contracts[name]; con != nil && !con.Inline {
+	if con := fc.eng.contractFor(name, fc.props); con != nil && !con.Inline {
 		return fc.callByContract(fr, st, reach, con, callee, args, call)
 	}
 	if len(callee.Blocks) > 0 && fc.eng.inRepo(callee) {
